@@ -12,7 +12,7 @@ import (
 
 func init() {
 	props["C13"] = c13
-	floors["C13"] = map[string]int{"C13.R1": 24, "C13.R2": 10, "C13.R3": 5, "C13.R4": 8, "C13.R5": 8, "C13.R6": 16}
+	floors["C13"] = map[string]int{"C13.R1": 40, "C13.R2": 12, "C13.R3": 5, "C13.R4": 8, "C13.R5": 8, "C13.R6": 16}
 }
 
 // moduleStructs lists the named struct types declared in module packages.
@@ -225,6 +225,49 @@ func c13(r *Report) {
 				}
 			}
 		}
+		// a child that is not a verifier is skipped, it does not end the walk
+		for _, c := range containers {
+			for _, mn := range []string{c.S.verifyM, c.S.reset} {
+				fn := w.method(c.T, mn)
+				if fn == nil {
+					continue
+				}
+				g := G(fn)
+				var tas []*ssa.TypeAssert
+				for _, in := range instrs(fn) {
+					if ta, ok := in.(*ssa.TypeAssert); ok && ta.CommaOk && types.IsInterface(ta.AssertedType) && strings.Contains(ta.AssertedType.String(), "/verify.") {
+						tas = append(tas, ta)
+					}
+				}
+				for k, ta := range tas {
+					okv := extractOf(ta, 1)
+					if okv == nil {
+						continue
+					}
+					for _, e := range branchesOn(okv) {
+						reach := func(b *ssa.BasicBlock) map[*ssa.TypeAssert]bool {
+							out := map[*ssa.TypeAssert]bool{}
+							rs := g.Reach(blockStart(b), true, nil)
+							for _, t := range tas {
+								if rs[t] {
+									out[t] = true
+								}
+							}
+							return out
+						}
+						ro, rn := reach(e.True), reach(e.False)
+						good := true
+						for t := range ro {
+							if !rn[t] {
+								good = false
+							}
+						}
+						r.Paths++
+						r.Decide("path", fmt.Sprintf("%s.%s: a non-verifier child (assertion #%d) is skipped without ending the walk", typeName(c.T), mn, k+1), good, "the not-a-verifier edge reaches every child the verifier edge reaches", "when this child is not a verifier the remaining children are not visited (break / return instead of continue): verifiers behind it are never queried or reset", ta.Pos())
+					}
+				}
+			}
+		}
 		// observation: types that hold children but implement no verifier interface
 		for _, T := range structs {
 			st := T.Underlying().(*types.Struct)
@@ -316,6 +359,29 @@ func c13(r *Report) {
 				}
 			}
 			r.Decide("flow", "(*M.MultiError).Add flattens a *MultiError argument", ok, "appends the argument's Errors() on the ok edge of the assertion", "Add no longer unwraps nested MultiErrors: nested groups are reported as one combined error", add.Pos())
+		}
+		// the error list is never aliased with another MultiError's list
+		if me := w.Named("", "MultiError"); me != nil {
+			if fo := structField(me, "errs"); fo != nil {
+				for _, st := range w.fieldStores(fo) {
+					fa := st.Addr.(*ssa.FieldAddr)
+					own := false
+					if c, isC := st.Val.(*ssa.Call); isC {
+						if b, isB := c.Call.Value.(*ssa.Builtin); isB && b.Name() == "append" {
+							if ld, isLd := c.Call.Args[0].(*ssa.UnOp); isLd {
+								if fa2, isFa := ld.X.(*ssa.FieldAddr); isFa && fieldObj(fa2) == fo && fa2.X == fa.X {
+									own = true
+								}
+							}
+						}
+					}
+					if isNilConst(st.Val) {
+						own = true
+					}
+					r.Sites++
+					r.Decide("flow", fmt.Sprintf("MultiError.errs store #%d in %s appends to the receiver's own list", ordinalStore(st), fnName(st.Parent())), own, "errs = append(errs, ...)", "the list is replaced by a slice that belongs to (or is shared with) another MultiError: later additions overwrite each other's entries", st.Pos())
+				}
+			}
 		}
 		ap := r.Use("verify", "appendError")
 		if ap != nil {
@@ -525,6 +591,21 @@ func c13(r *Report) {
 			}
 		}
 	})
+}
+
+func ordinalStore(st *ssa.Store) int {
+	k := 0
+	for _, in := range instrs(st.Parent()) {
+		if s, ok := in.(*ssa.Store); ok {
+			if _, isFa := s.Addr.(*ssa.FieldAddr); isFa {
+				k++
+			}
+			if s == st {
+				return k
+			}
+		}
+	}
+	return 0
 }
 
 func okEdgeDominatesTA(ta *ssa.TypeAssert, b *ssa.BasicBlock) bool {
